@@ -14,13 +14,13 @@ CHECKS = {
  "C03": ("fault_enumeration", "deterministic simulation: stored-byte fault enumeration (every bit, all chunk-level edits) + seeded read histories vs model",
          "Every single-bit flip of every byte (small images), all chunk swaps/moves/duplications/deletions/splices from a second archive, tail edits; a seeded read history on each altered image must never return a byte or a name that differs from the original. Exhaustive in the fault for the images visited; also compound faults (blanked tags with payload edits), transplants between chunks, and forgeries built with the archive key whose tag is then damaged. One recorded finding: a cut on a chunk edge is an authentic shorter stream (format v1 has no authenticated end)."),
  "C04": ("fault_enumeration", "deterministic simulation: per-chunk corruption enumeration with adversarial block-lookalike content; model-based and metamorphic oracle on authenticated repair",
-         "For every chunk index payload/tag corruption, in-chunk truncation and chunk-level edits; authenticated repair must output nothing beyond what the contiguously verified chunks carry (independent AES-GCM model + repair of the stream cut before the failure) and be a prefix of unauthenticated repair; production-size archives of 48..80 chunks, two damaged chunks at once, sources that return short reads or report Interrupted (safety clauses only). Two recorded findings (chunk 0 unauthenticated; compression + corruption ordering)."),
+         "For every chunk index payload/tag corruption, in-chunk truncation and chunk-level edits; authenticated repair must output nothing beyond what the contiguously verified chunks carry (independent AES-GCM model + repair of the stream cut before the failure) and be a prefix of unauthenticated repair; production-size archives of 48..80 chunks, two damaged chunks at once, sources that return short reads or report Interrupted (safety clauses only), or fail once with a transient error at a sampled or swept read call (what was written must still be prefixes). Two recorded findings (chunk 0 unauthenticated; compression + corruption ordering)."),
  "C05": ("fault_enumeration", "deterministic simulation: crash-point sweep, completeness on intact images, monotonicity over consecutive cuts, ground truth from the format model",
          "Same sweep as C02 with the completeness clause at n=len, monotonicity between consecutive cut lengths and, without compression, a lower bound computed by the independent format model from the bytes present / in complete chunks."),
  "C06": ("exploration", "deterministic simulation used as history generator; differential check against an independent implementation of FORMAT.md (both directions) and of AES-GCM call splits",
          "Library images decoded by the independent format model with the documented constants; foreign-writer archives (its own choices wherever the description leaves one: ids, index form, empty blocks, trailing empty compressed block, up to 1000 recipients) read by the library; incremental AES-GCM vs the aes-gcm crate for exhaustive 2-splits up to 80 bytes and seeded k-splits; historical sample archive."),
  "C07": ("exploration", "deterministic simulation with the real OS entropy source: repeated identical histories in-process and in freshly spawned processes; sink monitor for plaintext; key-list matrix",
-         "Identical workloads are written 8 times in-process (three of them each on a thread of its own), in a forked copy of the worker and in two fresh processes on the unmodified prod build (and prodv with hook H2 not engaged): keys, nonces and ephemeral public keys pairwise distinct; no content marker or name in the stored bytes after the header; every recipient opens at any key-list position, no other key does."),
+         "Identical workloads are written 8 times in-process (three of them each on a thread of its own), in a forked copy of the worker and in two fresh processes on the unmodified prod build (and prodv with hook H2 not engaged): the writer configuration reaching its final state by five routes of its builder (a layer disabled and enabled again, keys first, keys in two calls...): keys, nonces and ephemeral public keys pairwise distinct; no content marker or name in the stored bytes after the header; every recipient opens at any key-list position, no other key does."),
  "C08": ("fault_enumeration", "deterministic simulation: structured fault injection at all three layers (stored bytes, compressed stream, file-layer stream re-wrapped with valid encryption), crafted hostile footers/size tables, operation histories continuing after errors; process isolation, step budget, counting allocator",
          "Every single bit flip and cut of one small archive plus seeded k<=3 structured faults (boundary values, values derived from the layers' position arithmetic, sum-preserving pairs of fields) and hand-built hostile streams (incl. runs of thousands of empty units); each operation of a history that continues after errors must return Ok/Err: no panic, no worker death (stack overflow, abort), seam-call budget, heap ceiling proportional to the input."),
  "C09": ("exploration", "deterministic simulation: exhaustive short call histories + seeded long ones vs a call-validation model; completion, read-back, repair and linear extraction of the result",
@@ -28,7 +28,7 @@ CHECKS = {
  "C10": ("exploration", "deterministic simulation: seeded reader operation histories on one reader vs per-file cursor model",
          "Histories of 20..200 list/hash/open/read/abandon operations with boundary-biased buffer sizes on interleaved multi-chunk/multi-block archives; every read (read, read_vectored, exact stops on stream edges) must equal a per-file cursor over the model; sweep-and-revisit histories over up to 4200 files; archives of the independent writer."),
  "C11": ("exploration", "deterministic simulation: seek/read histories on each layer reader stack vs std::io::Cursor over the layer plaintext from the independent format model; exhaustive length residues on scaled variants",
-         "Layer stacks built as `mlar info` builds them; histories of seeks from start/current/end within [0,len] and reads; positions and bytes must equal a cursor; content length swept so that every residue modulo CHUNK and BLOCK occurs; plaintexts beyond 2^32 bytes (period 251) with jumps around 2^31 and 2^32."),
+         "Layer stacks built as `mlar info` builds them; histories of seeks from start/current/end within [0,len] and reads; positions and bytes must equal a cursor; content length swept so that every residue modulo CHUNK and BLOCK occurs; plaintexts beyond 2^32 bytes (period 251) with jumps around 2^31 and 2^32; a COMPRESSED stream beyond 2^32 bytes (one incompressible block replayed a thousand times through a generated source); short-read and interrupting sources, the refused call made again."),
  "C12": ("exploration", "deterministic simulation: linear extraction into seeded subsets through splitting/interrupting sinks vs model; foreign-writer images without end marker; failing sink",
          "Linear extraction of library archives into every kind of subset under sink schedules must deliver exactly the model bytes; marker-less / cut-in-block archives built by the format model must give Err; a sink that stops taking bytes (error, zero-accept, broken pipe) must give Err; a content block longer than 2^32 bytes; archives of the independent writer; short-read sources."),
  "C13": ("exploration", "deterministic simulation: seeded transfer schedules (short writes/reads, Interrupted) at every seam vs the memory run",
@@ -38,7 +38,7 @@ CHECKS = {
  "C15": ("exploration", "deterministic simulation with a counting allocator seam: generator source -> counting/spilling sink, repair and linear extraction from the spill file; peak live heap vs ceiling and vs amount streamed",
          "On the unmodified prod build a generator streams two sizes (16/64 MiB quick, 64 MiB..1 GiB thorough) through every layer set; peak live heap of write, repair and linear extraction must stay under fixed ceilings and not grow with the bytes streamed; growth with files x runs bounded linearly; also authenticated repair, linear extraction that skips everything, small records with a flush after each, two files fed alternately."),
  "C16": ("exploration", "simulation of the mlar process on a private scratch tree: generated member-name grammar x command histories, snapshot diff of everything outside the output directory",
-         "Archives with member names from a path grammar ('..', '.', empty, long, unicode, absolute, trailing separators) extracted by the real mlar binary in whole/name/glob forms with relative and absolute output directories; nothing outside the output directory may change; collision-free members must be extracted exactly. The environment dimension is the pre-existing tree: one run in five starts with symbolic links already in the output directory (to a directory / a file outside, to siblings named like the output directory, to a directory inside). Weakest fit, said in DESIGN.md."),
+         "Archives with member names from a path grammar ('..', '.', empty, long, unicode, absolute, trailing separators) extracted by the real mlar binary in whole/name/glob forms with relative and absolute output directories; nothing outside the output directory may change; collision-free members must be extracted exactly. The environment dimension is the pre-existing tree: one run in five starts with symbolic links already in the output directory (to a directory / a file outside, to siblings named like the output directory, to a directory inside, dangling links, a link loop); the output directory argument comes in eight forms (trailing '/', '.', './out', 'sub/../out', a symlink to it, a working directory behind a symlink). Weakest fit, said in DESIGN.md."),
  "C17": ("exploration", "simulation of mlar command pipelines on generated file trees vs the tree as model; key-fault injection",
          "create (files / directory / stdin forms) then list, list -vv, cat, both extract forms, to-tar and seeded repair/convert chains across layer and key choices must all return the input files' exact bytes, names, sizes and hashes; wrong, missing or superfluous keys must fail without output content; trees with links to files and directories, crowds of files, names and sizes at tar's and the size formatter's boundaries, sibling inputs named like the directory."),
  "C20": ("exploration", "deterministic simulation of the C entry points linked as an rlib: simulated write/read/seek/file callbacks with seeded acceptance schedules and failure injection; null and cleared-handle call histories",
